@@ -36,6 +36,16 @@ F24Sig == HasArg("--canonicalize-roles") /\ HasArg("--reify-edges") /\
           \E gi \in DOMAIN T.in_graphs : LET g == T.in_graphs[gi]  vs == {g.tr[i][1] : i \in DOMAIN g.tr} IN
              \E i \in DOMAIN g.tr : g.tr[i][2] # ConceptRole /\ g.tr[i][3] \in vs /\ ~Reifiable(M, g.tr[i][2])
                                     /\ NormOf(M, g.tr[i][2] \o "-of") # g.tr[i][2] \o "-of" /\ Reifiable(M, NormOf(M, g.tr[i][2] \o "-of"))
+\* F26: --reify-edges, --dereify-edges and --reify-attributes together on a relation without a target whose role shares its
+\* reification concept with another, mirrored role listed first (AMR: :superset, whose include-91 is read back as :subset): the
+\* reified node is not collapsible while one of its arguments is missing; --reify-attributes then makes a node of the missing
+\* target, and the second run collapses what the first run left
+Mirrored(m, r) == Reifiable(m, r) /\ LET c == ReifOf(m, r)[1]
+                                         k == CHOOSE i \in DOMAIN m.reifs : m.reifs[i][2] = c /\ \A j \in 1..(i - 1) : m.reifs[j][2] # c
+                                     IN m.reifs[k][1] # r
+F26Sig == HasArg("--reify-edges") /\ HasArg("--dereify-edges") /\ HasArg("--reify-attributes") /\
+          \E gi \in DOMAIN T.in_graphs : LET g == T.in_graphs[gi] IN
+             \E i \in DOMAIN g.tr : g.tr[i][2] # ConceptRole /\ g.tr[i][3] = NULL /\ Mirrored(M, g.tr[i][2])
 \* input graphs are well-formed and survive the pipeline conventions (no over-inverted roles etc.): decided per graph
 \* (a decoded edge that still carries an inverted role was written over-inverted, e.g. :consist-of-of under a model that does not
 \* define :consist-of: outside "well-formed", O12 - decided here on the decoded input graphs, whatever the generator intended)
@@ -70,6 +80,7 @@ CliV ==
                        ELSE IF F19Sig THEN <<"KNOWN", "F19 error-N metadata describe the graph before rearrange / make-variables">>
                        ELSE IF F23Sig THEN <<"KNOWN", "F23 check + reify-attributes on an inverted attribute">>
                        ELSE IF F24Sig THEN <<"KNOWN", "F24 canonicalize-roles + reify-edges on an edge whose inverted role normalises to a reifiable one">>
+                       ELSE IF F26Sig THEN <<"KNOWN", "F26 reify-edges + dereify-edges + reify-attributes on a mirrored relation without a target">>
                        ELSE <<"REJECT", "output-is-a-fixed-point">>)
             ELSE Acc
 
